@@ -166,7 +166,7 @@ def adjust_moisture_content(retentate, permeate, moisture_content, ID=None, stri
         if strict:
             raise InfeasibleRegion(f'not enough {ID}; permeate moisture content')
         else:
-            retentate.imol[key] -= permeate.imol[key]
+            retentate.imol[key] += permeate.imol[key] # Return the deficit (negative) to close the balance
             permeate.imol[key] = 0.
 
 def mix_and_split(ins, top, bottom, split):
